@@ -59,6 +59,12 @@ def run(chk: Check) -> None:
         subj = attr_path(c.args[1]) if len(c.args) > 1 else None
         chk.ob("R15.1", "Serialization._parse_type:tokenises-the-argument", subj == (tn,) and len(c.args) == 2
                and not c.keywords, f.loc(c), "findall must scan the type_name argument, without flags", 1)
+        rebound = [n for n in walk_no_nested(f.node) if isinstance(n, ast.Name) and n.id == tn
+                   and not isinstance(n.ctx, ast.Load)]
+        chk.ob("R15.1", "Serialization._parse_type:argument-unchanged", not rebound,
+               f.loc(rebound[0]) if rebound else f.loc(),
+               "the type name is rewritten before it is tokenised (%s is rebound): which strings are accepted, "
+               "and the names in the tree, must be those of the string the caller gave" % tn, 1)
         if pat is None:
             chk.ob("R15.1", "Serialization._parse_type:regex", False, f.loc(c), "regex is not a literal", 1)
         else:
